@@ -126,6 +126,11 @@ class Prop(BaseProp):
         ops = [self.rand_op(rng) for _ in range(12 if T else 8) if True]
         ops = [o for o in ops if o[0] != "generate"] + [("derive", [0, 1]), ("addr", 1, [0, 1]), ("by_path", "m/0/1"), ("pk_addr", [0])]
         cases.append({"kind": "Hist", "seed": seed, "testnet": False, "ops": ops, "threads": 8})
+        # single children requested out of order / repeatedly / with gaps from ONE node object (the master), then the same range in bulk
+        ops = [("ckd_chain", [0]), ("ckd_chain", [2]), ("ckd_chain", [1]), ("ckd_chain", [3]), ("gen_children", [], 0, 4),
+               ("ckd_chain", [0]), ("ckd_chain", [0]), ("ckd_chain", [2]), ("gen_children", [], 0, 3), ("gen_children", [], 4, 7),
+               ("ckd_chain", [6]), ("ckd_chain", [4]), ("gen_children", [], 4, 7), ("gen_children", [], 0, 4)]
+        cases.append({"kind": "Hist", "seed": seed, "testnet": False, "ops": ops, "threads": 0})
         # a legal schedule made deterministic: while generate_children of one "thread" is between two derivation steps
         # (at its at-th HMAC call) another "thread" runs a complete ckd on the SAME node object
         for iv, at, other in (((0, 5), 2, 9), ((0, 4), 1, 0), ((3, 8), 3, 3), ((H, H + 3), 2, 1), ((0, 6), 5, 2 ** 31 + 7)):
